@@ -97,7 +97,7 @@ def run(ctx):
     # directed histories that reproduce the three pending findings on every run (accepted only through the
     # KnownFailure disjunct of the trace specification; anything else about them is still checked)
     for name, cfg, tcfg, script in (("F1", "g2", "store/FreezerTraceG2", "a2,t1"),
-                                    ("F2", "mixed", "store/FreezerTraceMixed", "a3,s,h0"),
+                                    ("F2", "np2", "store/FreezerTraceNP2", "a3,s,h0"),   # both tables not prunable: independent of map order
                                     ("F3", "g2", "store/FreezerTraceG2", "a4,a4,a4,a4,a4,a4,s")):
         tp = os.path.join(ctx.scratch, "trace-%s.ndjson" % name)
         ctx.drive(drv, ["-mode", "xf", "-cfg", cfg, "-script", script, "-images", ctx.pick(4, 12), "-n", 1, "-trace", tp,
